@@ -83,6 +83,10 @@ def run(ctx):
                       "in force become exactly what was assigned, in that order (equality of dicts ignores order; nothing assigned is ever dropped as 'already there')", floor=1)
     ctx.rule("R18.v", "setter model: Parameter.__set__ interpreted abstractly on every combination (578) of route x constant/readonly x validation outcome x identity x reference mode x watchers x "
                       "batching: every assignment is validated, also one that re-assigns the identical object (the membership check of a Selector is its validation, and the objects may have changed)", floor=1)
+    ctx.rule("R18.n", "selector model, _named_objs: what get_range() returns, interpreted for objects with declared labels one of which is falsy ('' / 0) and an unlabelled object: every "
+                      "labelled object is listed under exactly its label, an unlabelled one under its name", floor=1)
+    ctx.rule("R18.w", "the read side of the list view is list's own: ListProxy does not override __contains__ / __iter__ / __len__ / index / count -- validation (`val not in self.objects`) "
+                      "and get_range() read the objects through them", floor=1)
     ctx.rule("R18.a", "in every listed mutator each mutation of the proxy list has, in the same block, the same mutation of _objects with identical arguments (and vice versa); update only delegates", floor=8)
     ctx.rule("R18.b", "ListProxy.pop returns, on every path, a value obtained from a .pop(...) on one of the stores", floor=2)
     ctx.rule("R18.c", "where a mutator rebuilds names after removing an object, the filter keeps the entries NOT identical to it (pop and remove agree)", floor=2)
@@ -431,6 +435,18 @@ def _rule_g(ctx):
     selector_model.report(ctx, "R18.k")
     selector_model.report_compute_default(ctx, "R18.s")
     selector_model.report_objects_setter(ctx, "R18.o")
+    selector_model.report_named_objs(ctx, "R18.n")
+    # R18.w: the read side of the list view is list's own
+    lp = ctx.repo.classes["param.parameters.ListProxy"]
+    reads = ("__contains__", "__iter__", "__len__", "index", "count", "__reversed__")
+    over = [m for m in reads if m in lp.methods]
+    anyf = lp.methods["__getitem__"][0]
+    if over:
+        g = lp.methods[over[0]][0]
+        ctx.fail("R18.w", g, g.node, "ListProxy overrides `%s`: membership, iteration and length of `.objects` are what validation and get_range() read; they must be those of the list of "
+                                     "objects itself (a dictionary-style `in` makes every label an accepted value)" % over[0], key="param.parameters.ListProxy::read-protocol-overridden::%s" % over[0])
+    else:
+        ctx.ok("R18.w", anyf, None, "ListProxy inherits %s from list" % ", ".join(reads))
     from checks import setter_model
     setter_model.report(ctx, "C18", "R18.v")
     from checks import instcopy_model
